@@ -65,7 +65,7 @@ def cli(code, env, args):
     return out
 
 
-def load_limit_history(ctx, code, rs, name, flags, ref_len):
+def load_limit_history(ctx, code, rs, name, flags, ref_len, fixed=None):
     """--limit on a RESUMED session: quit after some pre-terminals (real pcfg_guesser.main, harness/main_driver.py), then
     `--load` without a limit is the reference and `--load --limit N` must write exactly its first min(N, total) lines
     (whatever the earlier session already wrote)."""
@@ -73,7 +73,12 @@ def load_limit_history(ctx, code, rs, name, flags, ref_len):
     vio = []
     sess = "ll_" + name
     k = ctx.rng.randint(1, 4)
-    r1 = common.run_main_driver(code, ["-r", name, "-s", sess] + flags, quit_after_pops=k)
+    # the interrupted session itself was started with a limit in two of three histories (one it never reached): the limit of
+    # the RESUMED run is the one typed with --load, whatever the earlier invocation was given
+    first_limit = ctx.rng.choice([None, ref_len + 5, 10 ** 6])
+    if fixed:
+        k, first_limit = fixed.get("k", k), fixed.get("first_limit")
+    r1 = common.run_main_driver(code, ["-r", name, "-s", sess] + flags + (["-n", str(first_limit)] if first_limit else []), quit_after_pops=k)
     sav = os.path.join(code, sess + ".sav")
     if r1.get("error") or not os.path.exists(sav) or len(r1["out"]) >= ref_len:
         return vio, 0                     # the run ended before the quit (nothing to resume)
@@ -100,10 +105,10 @@ def load_limit_history(ctx, code, rs, name, flags, ref_len):
         runs += 1
         if got.get("error") or got["out"] != R[:n] or got.get("stray_stdout"):
             vio.append({"sig": "C09:limit-count:resumed" if len(got["out"]) != min(n, len(R)) else "C09:limit-content:resumed",
-                        "what": "session quit after %d guesses, resumed with --load --limit %d: wrote %d lines, expected exactly the first %d of "
-                                "the %d an unlimited resume writes%s" % (len(r1["out"]), n, len(got["out"]), min(n, len(R)), len(R),
+                        "what": "session%s quit after %d guesses, resumed with --load --limit %d: wrote %d lines, expected exactly the first %d of "
+                                "the %d an unlimited resume writes%s" % (" (started with --limit %d)" % first_limit if first_limit else "", len(r1["out"]), n, len(got["out"]), min(n, len(R)), len(R),
                                                                           "; error: %s" % got["error"] if got.get("error") else ""),
-                        "replay": {"ruleset": rs, "flags": flags, "history": "load-limit", "k": k, "n": n}})
+                        "replay": {"ruleset": rs, "flags": flags, "history": "load-limit", "k": k, "n": n, "first_limit": first_limit}})
             break
     return vio, runs
 
@@ -309,7 +314,7 @@ def replay(ctx, data):
     if inp.get("history") == "load-limit":
         code = common.copy_code_tree(common.scratch())
         rulesets.write_ruleset(rs, os.path.join(code, "Rules", rs["name"]))
-        v, _ = load_limit_history(ctx, code, rs, rs["name"], inp.get("flags", []), 10 ** 9)
+        v, _ = load_limit_history(ctx, code, rs, rs["name"], inp.get("flags", []), 10 ** 9, fixed=inp)
         return v
     code = common.copy_code_tree(common.scratch())
     env = common.subenv()
